@@ -29,9 +29,11 @@ import (
 )
 
 func init() {
-	props["C16"] = runC16
-	props["C17"] = runC17
-	props["C18"] = runC18
+	// the handlers of C16-C18 are driven by the manager: the manager-level ordering scenarios (an update parked inside a
+	// handler; a registration whose replay overlaps the next update) run for the resource type each handler listens to
+	props["C16"] = func(c *ctx) { handlerOrder(c, "cds", "h-cds"); registrationRace(c, "cds", "g-cds"); runC16(c) }
+	props["C17"] = func(c *ctx) { handlerOrder(c, "rds", "h-rds"); registrationRace(c, "rds", "g-rds"); runC17(c) }
+	props["C18"] = func(c *ctx) { handlerOrder(c, "lds", "h-lds"); registrationRace(c, "lds", "g-lds"); runC18(c) }
 }
 
 // ---------------- C16: circuit breaker ----------------
